@@ -50,10 +50,12 @@ class Job:
 
 
 class Fault:
-    """Fail the k-th (1-based) invocation of `cmd`."""
+    """Fail the k-th (1-based) invocation of `cmd`.  sticky: every later invocation with the same request (same
+    arguments and input - a retry of the refused request) fails the same way."""
 
-    def __init__(self, cmd, k, kind):
-        self.cmd, self.k, self.kind = cmd, k, kind
+    def __init__(self, cmd, k, kind, sticky=False):
+        self.cmd, self.k, self.kind, self.sticky = cmd, k, kind, sticky
+        self.request = None
 
 
 class SimCluster:
@@ -81,8 +83,10 @@ class SimCluster:
         n = self.counts[cmd] = self.counts.get(cmd, 0) + 1
         if self.before_cmd:
             self.before_cmd(cmd, n, argv)
-        fault = next((f for f in self.faults if f.cmd == cmd and f.k == n), None)
+        request = (tuple(argv[1:]), stdin or "")
+        fault = next((f for f in self.faults if f.cmd == cmd and (f.k == n or (f.sticky and f.request == request))), None)
         if fault is not None:
+            fault.request = request
             rc, out, err = self._fault(cmd, fault.kind)
         else:
             handler = getattr(self, "_cmd_" + cmd, None)
@@ -106,6 +110,13 @@ class SimCluster:
             return 1, "", {"sbatch": "sbatch: fatal: Invalid account or account/partition combination specified\n",
                            "qsub": "Unable to run job: denied: host is no submit host.\nExiting.\n",
                            "bsub": "Request aborted by esub. Job not submitted.\n"}.get(cmd, f"{cmd}: fatal: request refused\n")
+        if kind == "busy":
+            # the scheduler puts the request off (LSF: mbatchd busy; SGE: qmaster not reachable)
+            return 255, "", {"bkill": "LSF is processing your request. Please wait ...\n",
+                             "bsub": "LSF is processing your request. Please wait ...\n",
+                             "qsub": "error: commlib error: got select error (Connection refused)\n",
+                             "qdel": "error: commlib error: got select error (Connection refused)\n",
+                             }.get(cmd, f"{cmd}: error: Socket timed out on send/recv operation. Please wait ...\n")
         if kind == "killed":
             return -9, "", ""  # the scheduler command was killed (no output at all)
         raise SimError(f"unknown fault kind {kind}")
@@ -304,8 +315,16 @@ class SimCluster:
     def sge_code(self, j):
         if j.code:
             return j.code
+        # some jobs carry additional flags that do not change what they are: a job rescheduled after a host failure
+        # (R), a user hold placed on a running job (h), a job being transferred to its host (t)
+        v = int(j.id) % 5 if j.id.isdigit() else 0
         if j.state == PENDING:
-            return "hqw" if j.deps and not self.deps_released(j) else "qw"
+            held = bool(j.deps) and not self.deps_released(j)
+            if v == 2:
+                return "hRq" if held else "Rq"
+            return "hqw" if held else "qw"
+        if j.state == RUNNING:
+            return {1: "hr", 3: "Rr", 4: "t"}.get(v, "r")
         return self.SGE_CODE.get(j.state)
 
     def _cmd_qstat(self, args, stdin):
@@ -387,16 +406,22 @@ class SimCluster:
     LSF_CODE = {PENDING: "PEND", RUNNING: "RUN", DONE: "DONE", FAILED: "EXIT", CANCELLED: "EXIT"}
 
     def _cmd_bjobs(self, args, stdin):
-        if len(args) != 4 or args[:3] != ["-noheader", "-o", "stat"]:
+        if len(args) < 4 or args[:3] != ["-noheader", "-o", "stat"]:
             return 255, "", "bjobs: unsupported options in simulation\n"
-        j = self.jobs.get(args[3])
-        if j is not None and j.family not in (None, "lsf"):
-            if "lsf" in j.shadow:
-                return 0, j.shadow["lsf"] + "\n", ""
-            return 0, "", f"Job <{args[3]}> is not found\n"
-        if j is None or not j.in_queue or j.foreign:
-            return 0, "", f"Job <{args[3]}> is not found\n"
-        return 0, (j.code or self.LSF_CODE[j.state]) + "\n", ""
+        # one line on stdout per job that LSF still knows, in the order asked; a note on stderr for each of the others
+        out, err = "", ""
+        for jid in args[3:]:
+            j = self.jobs.get(jid)
+            if j is not None and j.family not in (None, "lsf"):
+                if "lsf" in j.shadow:
+                    out += j.shadow["lsf"] + "\n"
+                else:
+                    err += f"Job <{jid}> is not found\n"
+            elif j is None or not j.in_queue or j.foreign:
+                err += f"Job <{jid}> is not found\n"
+            else:
+                out += (j.code or self.LSF_CODE[j.state]) + "\n"
+        return 0, out, err
 
     def _cmd_bkill(self, args, stdin):
         ids = [a for a in args if not a.startswith("-")]
@@ -517,6 +542,7 @@ class SimCluster:
             return j
         j.state = CANCELLED
         j.cancel_by = by
+        j.code = None  # a displayed-code override described the job while it was alive
         self.tick += 1
         j.ended_at = self.tick
         self.journal.append((self.tick, "cancel", jid))
